@@ -37,6 +37,7 @@ MIN = {'quick': {'distinct': 600,
                             'cli source other than plain utf-8 export': 20, 'ambiguous word': 300,
                             'cli binarized markov': 10, 'fan-out >= 10': 30,
                             'cli treebank of more than 1000 sentences': 8,
+                            'grammar and lexicon dicts re-filled for several writes': 100,
                             'lopar: production both continuous and '
                             'discontinuous': 10}},
        'thorough': {'distinct': 30000, 'hooks': {'cli.grammar': 1200}}}
@@ -273,6 +274,8 @@ def run_api(ctx, case, rng):
     params = {'lex_in_grammar': True} if lig else {}
     exc = None
     before = (copy.deepcopy(grammar), copy.deepcopy(lexicon))
+    for ext in ('pmcfg', 'rcg', 'lex', 'gram', 'start', 'oc', 'OC'):
+        common.preexisting(ctx, prefix + '.' + ext, rng, 0.15)
     try:
         with common.captured():
             getattr(R.grammaroutput, fmt)(grammar, lexicon, prefix, enc,
@@ -328,6 +331,39 @@ def run_api(ctx, case, rng):
               'after the call vs before: %s' % d)
         return
     finish(ctx, case, counts, lex, disc)
+
+
+def run_folds(ctx, case, rng):
+    """The caller keeps one grammar dict and one lexicon dict and re-fills them
+    for every part of its data (folds, treebank sections): each write gives
+    back the grammar and lexicon of that part."""
+    R = ctx.R
+    Cur.ctx, Cur.case = ctx, case
+    grammar, lexicon = {}, {}
+    for k, bank in enumerate(case['banks']):
+        rules, lex = reference(bank)
+        grammar.clear()
+        lexicon.clear()
+        grammar.update(to_repo_grammar(rules))
+        lexicon.update(to_repo_lexicon(lex))
+        counts = expected_counts(grammar)
+        fmt = case['fmts'][k % len(case['fmts'])]
+        prefix = ctx.path('.fold%d' % k)
+        try:
+            with common.captured():
+                getattr(R.grammaroutput, fmt)(grammar, lexicon, prefix,
+                                              'utf-8', **case['params'])
+        except Exception as e:
+            _fail('%s-writer-raises' % fmt, 'part %d: %r' % (k + 1, e))
+            return
+        if check_files(ctx, fmt, prefix, 'utf-8', counts, lex,
+                       bool(case['params']), 'API (dicts re-filled, part %d)'
+                       % (k + 1)) is not True:
+            return
+    ctx.stratum('grammar and lexicon dicts re-filled for several writes')
+    ctx.case(['folds', case['fmts'], sorted(case['params']),
+              [[model.canon(model.from_spec(s_['root']), 'w') for s_ in b]
+               for b in case['banks']]])
 
 
 def finish(ctx, case, counts, lex, disc):
@@ -574,6 +610,15 @@ def shard(ctx):
                     mk.append('nofanout')
                 case['markov'] = mk
         run_cli(ctx, case, rng)
+    for i in ctx.indices(ctx.pick(400, 20000)):
+        rng = ctx.rng('folds', i)
+        case = {'kind': 'folds',
+                'banks': [make_bank(rng, False, 'utf-8')
+                          for _ in range(rng.randint(2, 4))],
+                'fmts': rng.choice([['pmcfg'], ['rcg'], ['pmcfg', 'rcg']]),
+                'params': rng.choice([{}, {'lex_in_grammar': True},
+                                      {'lex_in_grammar': True}])}
+        run_folds(ctx, case, rng)
     # treebanks of realistic length through the command line (whatever the
     # driver does per so-many sentences: progress output, batches, flushes)
     for i in ctx.indices(ctx.pick(16, 160)):
@@ -615,5 +660,7 @@ def replay(ctx, case):
                     lex, False, 'API')
     elif case['kind'] == 'api':
         run_api(ctx, case, rng)
+    elif case['kind'] == 'folds':
+        run_folds(ctx, case, rng)
     else:
         run_cli(ctx, case, rng)
